@@ -28,6 +28,15 @@ def hand_cases():
             cand[0] = [two, [b, ["u"]]]
             cand[3] = [two, [w, ["u"]]]
             out.append({"dag": dag, "route": "construct_pruned", "arrows": [], "typed": True, "cand": cand, "hand": "witness shared with a hidden branch"})
+    # a witness of type 2 + 2 inspected by a case whose two branches each read one arm: pruning hides one branch, the arm it
+    # read shrinks to 1 while the sum keeps its width (1 + max(1, 0) = 2) -- the pruned witness must have the pruned type
+    dag2 = [["witness", 0, 0], ["unit", 0, 0], ["pair", 1, 2], ["iden", 0, 0], ["unit", 0, 0], ["pair", 4, 5], ["unit", 0, 0], ["case", 7, 7],
+            ["comp", 6, 8], ["take", 9, 0], ["case", 10, 10], ["comp", 3, 11]]
+    for a in ("L", "R"):
+        for b in ("L", "R"):
+            cand = [[] for _ in dag2]
+            cand[0] = [["+", two, two], [a, [b, ["u"]]]]
+            out.append({"dag": dag2, "route": "construct_pruned", "arrows": [], "typed": True, "cand": cand, "hand": "sum keeps its width when one arm is pruned"})
     return out
 
 def judge0(case, g):
